@@ -34,6 +34,15 @@ Theorem C08_gfp : forall ops s',
 Proof. intros ops s' s. exact (calc_gfp (final ops) s' (reachable_WF ops)). Qed.
 Print Assumptions C08_gfp.
 
+(* the analysis terminates: on every reachable graph with default labels and usable statuses it returns within the fuel
+   of the model (4 * nodes + 4; the proof needs only more fuel than nodes), so "calc s = (s', Ok)" above is not a
+   restriction *)
+Theorem C08_terminates : forall ops,
+  let s := final ops in
+  fresh_labels s -> calc_guard s = true -> exists s', calc s = (s', Ok).
+Proof. intros ops s. exact (calc_total (final ops) (reachable_WF ops)). Qed.
+Print Assumptions C08_terminates.
+
 (* the labelling does not depend on the order in which the nodes are stored *)
 Theorem C08_order_independent : forall ops l1 l2 s1 s2,
   let s := final ops in
